@@ -181,3 +181,20 @@ void reads_set(int k)
   if (r == ERROR_FILLED)
     use(err.message);
 }
+
+/* R7.8 */
+void mark(int);
+void narrow_loop_good(const unsigned char* t)
+{
+  unsigned short c;
+  unsigned char start = t[0];
+  unsigned char end = t[2];
+  for (c = start; c <= end; c++) mark(c);
+}
+void narrow_loop_bad(const unsigned char* t)
+{
+  unsigned char c;
+  unsigned char start = t[0];
+  unsigned char end = t[2];
+  for (c = start; c <= end; c++) mark(c);
+}
